@@ -10,6 +10,14 @@
 #include <ctype.h>
 #include <stdlib.h>
 
+/* octal digit string or base-256 encoded value (as used beyond 8 GiB) */
+static bool is_number_start(char c)
+{
+	unsigned char x = (unsigned char)c;
+
+	return isdigit(x) || (x & 0x80) != 0;
+}
+
 static int parse(const gnu_old_sparse_t *in, size_t count,
 		 sparse_map_t **head, sparse_map_t **tail)
 {
@@ -17,7 +25,8 @@ static int parse(const gnu_old_sparse_t *in, size_t count,
 	sqfs_u64 off, sz;
 
 	while (count--) {
-		if (!isdigit(in->offset[0]) || !isdigit(in->numbytes[0]))
+		if (!is_number_start(in->offset[0]) ||
+		    !is_number_start(in->numbytes[0]))
 			return 1;
 		if (read_number(in->offset, sizeof(in->offset), &off))
 			return -1;
